@@ -194,6 +194,7 @@ struct Client {
     release: Arc<AtomicBool>,
     stop: Arc<AtomicBool>,
     closed: Arc<AtomicBool>,
+    nframes: Arc<AtomicUsize>, // complete length-delimited frames received so far
     h: Option<std::thread::JoinHandle<()>>,
 }
 
@@ -205,9 +206,12 @@ fn spawn_client(port: u16, tok: i64, beh: Beh, close_after: usize) -> Option<Cli
     let release = Arc::new(AtomicBool::new(beh != Beh::Staller));
     let stop = Arc::new(AtomicBool::new(false));
     let closed = Arc::new(AtomicBool::new(false));
+    let nframes = Arc::new(AtomicUsize::new(0));
+    let nf2 = nframes.clone();
     let (b2, r2, s2, c2) = (buf.clone(), release.clone(), stop.clone(), closed.clone());
     let h = std::thread::spawn(move || {
         let mut tmp = vec![0u8; 65536];
+        let mut pos = 0usize;
         loop {
             if s2.load(Ordering::Relaxed) {
                 break;
@@ -221,6 +225,13 @@ fn spawn_client(port: u16, tok: i64, beh: Beh, close_after: usize) -> Option<Cli
                 Ok(n) => {
                     let mut g = b2.lock().unwrap();
                     g.extend_from_slice(&tmp[..n]);
+                    while let Some((len, at)) = varint(&g, pos) {
+                        if at + len as usize > g.len() {
+                            break;
+                        }
+                        pos = at + len as usize;
+                        nf2.fetch_add(1, Ordering::Release);
+                    }
                     if beh == Beh::Closer && g.len() >= close_after {
                         break;
                     }
@@ -232,8 +243,124 @@ fn spawn_client(port: u16, tok: i64, beh: Beh, close_after: usize) -> Option<Cli
         c2.store(true, Ordering::Relaxed);
         drop(s);
     });
-    Some(Client { tok, beh, buf, release, stop, closed, h: Some(h) })
+    Some(Client { tok, beh, buf, release, stop, closed, nframes, h: Some(h) })
 }
+
+// quiescence: no new transport event and no new bytes for 150 ms
+fn settle(clients: &[Client]) {
+    let mut last = (0usize, 0usize);
+    let mut stable_since = Instant::now();
+    let t0 = Instant::now();
+    loop {
+        let cur = (LOG.lock().unwrap().len(), clients.iter().map(|c| c.buf.lock().unwrap().len()).sum::<usize>());
+        if cur != last {
+            last = cur;
+            stable_since = Instant::now();
+        }
+        if stable_since.elapsed() > Duration::from_millis(150) || t0.elapsed() > Duration::from_secs(10) {
+            break;
+        }
+        std::thread::sleep(Duration::from_millis(5));
+    }
+}
+
+/// Wake-up stress: with every client connected and reading and the buffer all but empty, pairs of emissions a short,
+/// random distance apart, each pair followed by silence until both have arrived. An emission whose wake-up is lost
+/// stays inside the exporter until something else wakes the transport, which here never happens: the pacing
+/// deadline is missed (`final`'s second argument) and the emission is still in the model's channel.
+fn run_wake(rng: &mut rand::rngs::StdRng, trials: usize) -> (Vec<Value>, i64, i64) {
+    *CUR.lock().unwrap_or_else(|e| e.into_inner()) = None;
+    LOG.lock().unwrap_or_else(|e| e.into_inner()).clear();
+    let port = {
+        let l = std::net::TcpListener::bind("127.0.0.1:0").unwrap();
+        l.local_addr().unwrap().port()
+    };
+    let mut ev = vec![json!({"p": 0, "ev": "reset", "a": [1024, 2]})];
+    let recorder = match TcpBuilder::new().listen_address(([127, 0, 0, 1], port)).buffer_size(Some(1024)).build() {
+        Ok(r) => r,
+        Err(e) => {
+            ev.push(json!({"p": 0, "ev": "build_error", "a": [], "e": format!("{e}")}));
+            return (ev, 0, 0);
+        }
+    };
+    if !wait_for(|g| g.iter().any(|e| e.0 == "tcp.start.post"), 3) {
+        for (e, a) in LOG.lock().unwrap().iter() {
+            ev.push(json!({"p": 9, "ev": e, "a": a}));
+        }
+        ev.push(json!({"p": 0, "ev": "crash", "a": []}));
+        std::mem::forget(recorder);
+        return (ev, 0, 0);
+    }
+    recorder.describe_counter("m1".into(), None, "d1".into());
+    wait_for(|g| g.iter().filter(|e| e.0 == "tcp.rx.meta.post").count() >= 1, 3);
+    recorder.describe_gauge("m2".into(), Some(Unit::Bytes), "d2".into());
+    wait_for(|g| g.iter().filter(|e| e.0 == "tcp.rx.meta.post").count() >= 2, 3);
+    let name = "c".to_string();
+    let key = Key::from_parts(name.clone(), vec![Label::new("l", "v")]);
+    let counter = recorder.register_counter(&key, &Metadata::new("t", Level::INFO, None));
+    let mut clients: Vec<Client> = vec![];
+    for tok in 2..4i64 {
+        if let Some(c) = spawn_client(port, tok, Beh::Reader, 0) {
+            wait_for(|g| g.iter().any(|e| e.0 == "tcp.accept.post" && e.1[0] == tok), 5);
+            clients.push(c);
+        }
+    }
+    let mut next_id = 1i64;
+    let mut missed = 0i64;
+    let mut held = 0i64;
+    if clients.len() == 2 {
+        'trials: for _ in 0..trials {
+            let controlled = rng.random_range(0..4) == 0;
+            let gap = Duration::from_nanos(rng.random_range(0..80_000u64));
+            if controlled {
+                ARM.store(1, Ordering::Release);
+            }
+            log("emit", &[next_id]);
+            counter.increment(next_id as u64);
+            next_id += 1;
+            let t = Instant::now();
+            if controlled {
+                // wait until the transport has taken the first emission and is held after its receive loop
+                while ARM.load(Ordering::Acquire) != 2 && t.elapsed() < Duration::from_millis(200) {
+                    std::hint::spin_loop();
+                }
+            } else {
+                while t.elapsed() < gap {
+                    std::hint::spin_loop();
+                }
+            }
+            log("emit", &[next_id]);
+            counter.increment(next_id as u64);
+            next_id += 1;
+            if controlled {
+                let parked = ARM.swap(3, Ordering::AcqRel) == 2;
+                held += parked as i64;
+                if !parked {
+                    ARM.store(0, Ordering::Release);
+                }
+            }
+            // silence until both arrived at every client: 2 metadata frames + one frame per emission
+            let want = 2 + (next_id - 1) as usize;
+            let t0 = Instant::now();
+            let mut spins = 0u32;
+            while !clients.iter().all(|c| c.nframes.load(Ordering::Acquire) >= want) {
+                spins += 1;
+                if spins % 64 == 0 {
+                    std::thread::yield_now();
+                    if t0.elapsed() > Duration::from_secs(10) {
+                        missed += 1;
+                        break 'trials;
+                    }
+                }
+            }
+        }
+    }
+    settle(&clients);
+    (finish(ev, clients, &name, next_id, missed, recorder), missed, held)
+}
+
+// wake-race control: 0 idle, 1 armed, 2 transport parked after its receive loop, 3 released
+static ARM: AtomicUsize = AtomicUsize::new(0);
 
 static PORT_SALT: AtomicUsize = AtomicUsize::new(0);
 
@@ -297,7 +424,7 @@ fn run(rng: &mut rand::rngs::StdRng, buffer: Option<usize>, fat: bool) -> Vec<Va
     let batch_max = buffer.unwrap_or(8).min(if fat { 4 } else { 64 }).max(1);
     let rounds = if fat { rng.random_range(120..200usize) } else { rng.random_range(2..=6usize) };
     let mut next_id = 1i64;
-    let mut missed_deadline = 0;
+    let mut missed_deadline = 0i64;
     for r in 0..rounds {
         let n = rng.random_range(1..=batch_max);
         for _ in 0..n {
@@ -345,21 +472,11 @@ fn run(rng: &mut rand::rngs::StdRng, buffer: Option<usize>, fat: bool) -> Vec<Va
     for c in clients.iter() {
         c.release.store(true, Ordering::Relaxed);
     }
-    // quiescence: no new transport event and no new bytes for 150 ms
-    let mut last = (0usize, 0usize);
-    let mut stable_since = Instant::now();
-    let t0 = Instant::now();
-    loop {
-        let cur = (LOG.lock().unwrap().len(), clients.iter().map(|c| c.buf.lock().unwrap().len()).sum::<usize>());
-        if cur != last {
-            last = cur;
-            stable_since = Instant::now();
-        }
-        if stable_since.elapsed() > Duration::from_millis(150) || t0.elapsed() > Duration::from_secs(10) {
-            break;
-        }
-        std::thread::sleep(Duration::from_millis(5));
-    }
+    settle(&clients);
+    finish(ev, clients, &name, next_id, missed_deadline, recorder)
+}
+
+fn finish(mut ev: Vec<Value>, mut clients: Vec<Client>, name: &str, next_id: i64, missed_deadline: i64, recorder: metrics_exporter_tcp::TcpRecorder) -> Vec<Value> {
     let tlog: Vec<(String, Vec<i64>)> = LOG.lock().unwrap().clone();
     // clients we closed ourselves before the end did not read everything that was written to them
     let stopped_early: Vec<bool> = clients.iter().map(|c| c.stop.load(Ordering::Relaxed) || c.closed.load(Ordering::Relaxed)).collect();
@@ -373,19 +490,7 @@ fn run(rng: &mut rand::rngs::StdRng, buffer: Option<usize>, fat: bool) -> Vec<Va
     }
     // transport + harness events, with the outcome of every write made explicit
     let is_transport = |e: &str| e.starts_with("tcp.");
-    let mut in_rx = false;
     for (i, (e, a)) in tlog.iter().enumerate() {
-        // the receive loop of a wake-up ends silently: make its end explicit before the first transport event that is
-        // not part of it
-        if is_transport(e) {
-            if in_rx && e != "tcp.rx.metric.post" && e != "tcp.rx.meta.post" {
-                ev.push(json!({"p": 9, "ev": "tcp.rx.end.post", "a": []}));
-                in_rx = false;
-            }
-            if e == "tcp.wake.post" {
-                in_rx = true;
-            }
-        }
         ev.push(json!({"p": if is_transport(e) { 9 } else { 0 }, "ev": e, "a": a}));
         if e == "tcp.write.pre" {
             // the next transport event tells how the write ended
@@ -397,16 +502,14 @@ fn run(rng: &mut rand::rngs::StdRng, buffer: Option<usize>, fat: bool) -> Vec<Va
             }
         }
     }
-    if in_rx {
-        ev.push(json!({"p": 9, "ev": "tcp.rx.end.post", "a": []}));
-    }
     for (ci, c) in clients.iter().enumerate() {
         let b = c.buf.lock().unwrap();
-        let (frames, garbled, intact) = decode_stream(&b, &name);
+        let (frames, garbled, intact) = decode_stream(&b, name);
         ev.push(json!({"p": 0, "ev": "client.recv", "a": [c.tok], "frames": frames, "garbled": garbled, "intact": intact,
                        "reader": c.beh == Beh::Reader && !stopped_early[ci], "bytes": b.len()}));
     }
-    ev.push(json!({"p": 0, "ev": "final", "a": [next_id - 1, missed_deadline]}));
+    let primary = clients.first().map_or(false, |c| c.beh == Beh::Reader && !stopped_early[0]);
+    ev.push(json!({"p": 0, "ev": "final", "a": [next_id - 1, missed_deadline, primary as i64]}));
     std::mem::forget(recorder); // the transport thread lives until the process ends
     ev
 }
@@ -435,6 +538,16 @@ fn main() {
             if *cur == Some(me) {
                 drop(cur);
                 log(site, a);
+                // controlled schedule: hold the transport right after its receive loop saw the channel empty, until the
+                // emitter has pushed the next metric (and called wake) - the emission lands between "saw it empty" and
+                // whatever the transport does next
+                if site == "tcp.rx.end.post" && a[0] >= 1 && ARM.compare_exchange(1, 2, Ordering::AcqRel, Ordering::Acquire).is_ok() {
+                    let t = Instant::now();
+                    while ARM.load(Ordering::Acquire) != 3 && t.elapsed() < Duration::from_millis(200) {
+                        std::hint::spin_loop();
+                    }
+                    ARM.store(0, Ordering::Release);
+                }
             }
         }
     })));
@@ -442,8 +555,24 @@ fn main() {
     let runs: usize = args.num("runs", 10);
     let (mut maxid, mut blocks, mut crashes) = (0i64, 0usize, 0usize);
     let mut distinct = std::collections::HashSet::new();
-    for _ in 0..runs {
-        let ev = run(&mut rng, buffer, fat);
+    let trials: usize = args.num("trials", 500);
+    let (mut screened, mut written, mut stuck, mut held) = (0usize, 0usize, 0i64, 0i64);
+    for ri in 0..runs {
+        let ev = if mode == "wake" {
+            // every window is screened by its own pacing deadline; the first one and every one that missed it are
+            // written out and decided by TLC
+            let (ev, missed, h) = run_wake(&mut rng, trials);
+            screened += 1;
+            held += h;
+            stuck += missed;
+            if ri > 0 && missed == 0 && ev.iter().all(|e| e["ev"] != "crash" && e["ev"] != "build_error") {
+                continue;
+            }
+            written += 1;
+            ev
+        } else {
+            run(&mut rng, buffer, fat)
+        };
         for e in &ev {
             if e["ev"] == "final" {
                 maxid = maxid.max(e["a"][0].as_i64().unwrap());
@@ -459,6 +588,13 @@ fn main() {
         distinct.insert(ev.iter().map(|e| e["ev"].as_str().unwrap().to_string()).collect::<Vec<_>>().join(";"));
     }
     summary["runs"] = json!(runs);
+    if mode == "wake" {
+        summary["windows_screened"] = json!(screened);
+        summary["windows_written"] = json!(written);
+        summary["trials_per_window"] = json!(trials);
+        summary["missed_deadlines"] = json!(stuck);
+        summary["controlled_trials_held"] = json!(held);
+    }
     summary["max_id"] = json!(maxid);
     summary["would_block_writes"] = json!(blocks);
     summary["crashes"] = json!(crashes);
